@@ -701,6 +701,15 @@ namespace hv
         Line("CASE").s(name).i(c.win_start).i(c.win_end);
         if (c.graphs.count("main2")) { run_staged(c, name); return; }
         if (c.opt_int("poly", 0) != 0) { run_poly(c, name); return; }
+        // OPT gctx=<v>: this case wires and runs inside a GlobalContext of its own thread whose selected state holds a value;
+        // cases on other threads select nothing and must never see it
+        GlobalState                  session;
+        std::optional<GlobalContext> selected;
+        if (c.opts.count("gctx"))
+        {
+            session.view().set("verif.k0", Value{Int{c.opt_int("gctx", 0)}});
+            selected.emplace(session);
+        }
         std::optional<GraphBuilder> gb;
         try
         {
